@@ -19,7 +19,7 @@ ENV = dict(os.environ, CARGO_NET_OFFLINE='true', CARGO_TARGET_DIR=os.path.join(C
 TRUSTED_BASE = [
     'Coq 8.16.1 kernel (coqc; vm_compute in Examples and refutation lemmas; no native_compute)',
     'axioms: none (Print Assumptions of every property theorem must say "Closed under the global context")',
-    'extraction: Require Extraction + ExtrOcamlBasic only (bool, option, unit, list, prod, sumbool, sumor; nat stays Peano); OCaml 4.13.1; coq/driver/*.ml (parsing/printing)',
+    'extraction: Require Extraction + ExtrOcamlBasic only (bool, option, unit, list, prod, sumbool, sumor; nat stays Peano); OCaml 4.13.1; coq/driver/*.ml (parsing/printing); a sample of 60 cases per bundle is re-proved in the kernel by vm_compute (lib/kernel_sample.py)',
     'Rust harness /verif/harness (generators, controlled executor, canonicalisation), cargo/rustc',
     'lib/*.py: diff of projections, independent monitors',
     'modelled not verified (tied by correspondence only): petgraph 0.8.3, daggy 0.9.0, tokio 1.53 mpsc/RwLock, futures-util 0.3.34, interruptible 0.2.4, slice::sort_by stability',
@@ -302,6 +302,11 @@ def bundle(kind, tier, seed):
         meta['model_s'] = round(dt_m, 1)
         if rc2 != 0:
             meta['error'] = 'model driver exited with %d: %s' % (rc2, out2[-500:])
+        if rc2 == 0 and kind in ('builder', 'runtime'):
+            try:
+                meta['kernel_sample'] = kernel_sample_check(bdir, kind)
+            except Exception as e:
+                meta['error'] = 'kernel sample: ' + repr(e)[:600]
         if rc2 == 0:
             try:
                 n_div = graph_overrides(bdir, drv)
@@ -311,6 +316,22 @@ def bundle(kind, tier, seed):
         meta['wall_s'] = round(time.time() - t0, 1)
         json.dump(meta, open(meta_p, 'w'))
         return bdir, meta
+
+
+def kernel_sample_check(bdir, kind):
+    """A sample of the observations the extracted model printed is re-proved inside Coq (vm_compute)."""
+    import kernel_sample
+    ic, _, order, _ = parse_bundle(os.path.join(bdir, 'impl.txt'))
+    _, mobs, _, _ = parse_bundle(os.path.join(bdir, 'model.txt'))
+    src, ids = kernel_sample.generate(ic, mobs, order, kind, want=60)
+    if not ids:
+        return 0
+    f = os.path.join(bdir, 'KernelSample.v')
+    open(f, 'w').write(src)
+    rc, out, _ = sh('coqc -Q %s FG %s' % (os.path.join(COQ, 'theories'), f), 900, cwd=bdir)
+    if rc != 0:
+        raise RuntimeError('the kernel does not reproduce what the extracted model printed: ' + out[-400:])
+    return len(ids)
 
 
 def graph_overrides(bdir, drv, cap=20000):
@@ -473,6 +494,7 @@ def run_check(prop, tier, seed):
         exhaustive_scope=res.get('exhaustive_scope', ''), bundle_wall_s=res.get('bundle_wall_s'),
         explanation=spec.get('explanation', ''),
         modular_cases=res.get('modular_cases', 0),
+        kernel_reproved_sample=res.get('kernel_sample', 0),
     )
     ev = dict(property_id=prop, tier=tier, seed=seed, level='proof', coverage=cov,
               assumptions=spec.get('assumptions', []) + ['see DESIGN.md section 10 (trusted base)'],
